@@ -304,26 +304,40 @@ func checkCustomQuery(w *World, r *Result) {
 	gq := w.MustFunc("generator/go/sqlcrud.(context).generateCustomQueries")
 	ginfo := gq.Pkg.TypesInfo
 	okGen := false
-	ast.Inspect(gq.Decl.Body, func(x ast.Node) bool {
-		rs, ok := x.(*ast.RangeStmt)
-		if !ok {
-			return true
-		}
-		sel, ok := ast.Unparen(rs.X).(*ast.SelectorExpr)
-		if !ok || ginfo.Uses[sel.Sel] != inputs {
-			return true
-		}
-		writes := map[string]bool{}
-		for _, st := range rs.Body.List {
-			if t := textAccumTarget(ginfo, st); t != "" {
-				writes[t] = true
+	for _, cf := range calleeClosure(w, gq, 2) {
+		ast.Inspect(cf.Decl.Body, func(x ast.Node) bool {
+			rs, ok := x.(*ast.RangeStmt)
+			if !ok {
+				return true
 			}
-		}
-		if len(writes) >= 2 && len(pathCondsNoLoop(gq, rs.Body.List[0])) == lenOuterConds(gq, rs) {
-			okGen = true
-		}
-		return true
-	})
+			// the loop ranges over query.Inputs, or over a helper's parameter that receives it
+			overInputs := false
+			if sel, ok := ast.Unparen(rs.X).(*ast.SelectorExpr); ok && ginfo.Uses[sel.Sel] == inputs {
+				overInputs = true
+			}
+			if id := identOf(rs.X); id != nil && cf != gq {
+				ds, _ := defsThroughAny(w, cf, objOf(ginfo, id))
+				for _, d := range ds {
+					if sel, ok := ast.Unparen(d).(*ast.SelectorExpr); ok && ginfo.Uses[sel.Sel] == inputs {
+						overInputs = true
+					}
+				}
+			}
+			if !overInputs {
+				return true
+			}
+			writes := map[string]bool{}
+			for _, st := range rs.Body.List {
+				if t := textAccumTarget(ginfo, st); t != "" {
+					writes[t] = true
+				}
+			}
+			if len(writes) >= 2 && len(pathCondsNoLoop(cf, rs.Body.List[0])) == lenOuterConds(cf, rs) {
+				okGen = true
+			}
+			return true
+		})
+	}
 	r.cond(okGen, "AGR-C16c", gq.Name, "signature and argument list from one loop over Inputs", fnPos(w, gq), "both strings grow once per element of query.Inputs, unconditionally", "the Go signature and the argument list of a custom query are not built in lock-step from query.Inputs")
 }
 
